@@ -1,6 +1,115 @@
-(* C05 — property theorems only (placeholder until the meta-theory files land). *)
-From GL Require Import Common.Bytes Lua.Syntax Lua.Values Lua.Eval Lua.Run Lua.EvalFacts.
+(* C05 — property theorems only. Meta-theory of protected calls in the reference evaluator:
+   for all callees, arguments, states, fuel and all resumption behaviours (effect trees). *)
+From GL Require Import Common.Bytes Lua.Syntax Lua.Num Lua.Values Lua.Names Lua.Eval
+  Lua.MonadFacts Lua.EvalStepFacts Lua.CatchFacts.
 
-Theorem adjust_spec : forall n vs, length (adjust n vs) = n /\ forall i, (i < n)%nat -> nth i (adjust n vs) VNil = nth i vs VNil.
-Proof. exact adjust_spec_lemma. Qed.
-Print Assumptions adjust_spec.
+(* a handler that cannot fail makes the caught computation unable to fail *)
+Theorem catch_never_err : forall A (r : res A) (h : value -> state -> res A),
+  (forall v s, never_err (h v s)) -> never_err (catch r h).
+Proof. exact @catch_never_err_lemma. Qed.
+Print Assumptions catch_never_err.
+
+(* never_err means: no Err leaf along any sequence of replies to pending effects *)
+Theorem never_err_leaf : forall A (r : res A), never_err r <-> (forall p v s, ~ leaf r p (Err v s)).
+Proof. exact @never_err_leaf_lemma. Qed.
+Print Assumptions never_err_leaf.
+
+(* pcall(f, ...) never raises: every leaf is (true, results), (false, e), out-of-fuel or unsupported *)
+Theorem pcall_contains : forall n fr f rest s, never_err (builtin_call n fr BPcall (f :: rest) s).
+Proof. exact pcall_contains_lemma. Qed.
+Print Assumptions pcall_contains.
+
+Theorem pcall_result_shape : forall n fr f rest s, pcall_shape (builtin_call n fr BPcall (f :: rest) s).
+Proof. exact pcall_shape_lemma. Qed.
+Print Assumptions pcall_result_shape.
+
+(* the error value is delivered exactly once, as the pair (false, e), in the state of the error point *)
+Theorem pcall_delivers_error : forall n fr f rest s e s',
+  call n (pframes fr) f rest s = Err e s' ->
+  builtin_call (S n) fr BPcall (f :: rest) s = Ret [VBool false; e] s'.
+Proof. exact pcall_of_err_lemma. Qed.
+Print Assumptions pcall_delivers_error.
+
+Theorem pcall_delivers_results : forall n fr f rest s vs s',
+  call n (pframes fr) f rest s = Ret vs s' ->
+  builtin_call (S n) fr BPcall (f :: rest) s = Ret (VBool true :: vs) s'.
+Proof. exact pcall_of_ret_lemma. Qed.
+Print Assumptions pcall_delivers_results.
+
+(* the same after any number of suspensions/resumptions inside the protected call *)
+Theorem pcall_delivers_error_after_yields : forall n fr f rest s p e s',
+  leaf (call n (pframes fr) f rest s) p (Err e s') ->
+  exists x, leaf (builtin_call (S n) fr BPcall (f :: rest) s) p x /\ x = Ret [VBool false; e] s'.
+Proof. exact pcall_leaf_err_lemma. Qed.
+Print Assumptions pcall_delivers_error_after_yields.
+
+Theorem pcall_is_handle : forall n fr f rest s,
+  req (builtin_call (S n) fr BPcall (f :: rest) s) (handle (call n (pframes fr) f rest s) pcall_ok pcall_fail).
+Proof. exact pcall_handle_lemma. Qed.
+Print Assumptions pcall_is_handle.
+
+(* xpcall: handler applied exactly once to the error value at the error point; its first result
+   is delivered after false; its own outcome is not handled again *)
+Theorem xpcall_handler_once : forall n fr args s,
+  req (builtin_call (S n) fr BXpcall args s)
+      (handle (call n (pframes fr) (nth 0 args VNil) [] s) pcall_ok (xp_handler n fr (nth 1 args VNil))).
+Proof. exact xpcall_handle_lemma. Qed.
+Print Assumptions xpcall_handler_once.
+
+Theorem xpcall_handler_result_delivered : forall n fr args s e s1 hv s2,
+  call n (pframes fr) (nth 0 args VNil) [] s = Err e s1 ->
+  call n (pframes fr) (nth 1 args VNil) [e] s1 = Ret hv s2 ->
+  builtin_call (S n) fr BXpcall args s = Ret [VBool false; first hv] s2.
+Proof. exact xpcall_of_err_ret_lemma. Qed.
+Print Assumptions xpcall_handler_result_delivered.
+
+Theorem xpcall_contains : forall n fr args s,
+  (forall e s', never_err (call (pred n) (pframes fr) (nth 1 args VNil) [e] s')) ->
+  never_err (builtin_call n fr BXpcall args s).
+Proof. exact xpcall_contains_lemma. Qed.
+Print Assumptions xpcall_contains.
+
+Theorem xpcall_handler_unused_without_error : forall n fr f h h' s,
+  never_err (call n (pframes fr) f [] s) ->
+  req (builtin_call (S n) fr BXpcall [f; h] s) (builtin_call (S n) fr BXpcall [f; h'] s).
+Proof. exact xpcall_no_error_no_handler_lemma. Qed.
+Print Assumptions xpcall_handler_unused_without_error.
+
+(* catch/bind interaction *)
+Theorem catch_ret : forall A (a : A) s h, catch (Ret a s) h = Ret a s.
+Proof. exact @catch_ret_lemma. Qed.
+Print Assumptions catch_ret.
+
+Theorem catch_bind : forall A B (r : res A) (f : A -> state -> res B) (h : value -> state -> res B),
+  req (catch (bind r f) h) (handle r (fun a s => catch (f a s) h) h).
+Proof. exact @catch_bind_lemma. Qed.
+Print Assumptions catch_bind.
+
+Theorem catch_of_never_err : forall A (r : res A) h, never_err r -> req (catch r h) r.
+Proof. exact @catch_of_never_err_lemma. Qed.
+Print Assumptions catch_of_never_err.
+
+(* error(): values of any non-string type are raised unchanged at every level; level 0 never
+   decorates; a string at level 1 gains the position of the calling Lua frame; error never returns *)
+Theorem error_value_any_type : forall n fr args s lv,
+  plain_error_value (nth 0 args VNil) ->
+  opt_int (nth 1 args VNil) 1 s = Ret lv s ->
+  builtin_call (S n) fr BError args s = Err (nth 0 args VNil) s.
+Proof. exact error_value_any_type_lemma. Qed.
+Print Assumptions error_value_any_type.
+
+Theorem error_level0 : forall n fr args s lv,
+  opt_int (nth 1 args VNil) 1 s = Ret lv s -> lv <= 0 ->
+  (match nth 0 args VNil with VNum _ => False | _ => True end) ->
+  builtin_call (S n) fr BError args s = Err (nth 0 args VNil) s.
+Proof. exact error_level0_lemma. Qed.
+Print Assumptions error_level0.
+
+Theorem error_string_level1 : forall n cl l rest m s,
+  builtin_call (S n) ((Some l, cl) :: rest) BError [VStr m] s = Err (VStr (pos_prefix l ++ m)) s.
+Proof. exact error_string_level1_lemma. Qed.
+Print Assumptions error_string_level1.
+
+Theorem error_never_returns : forall n fr args s, never_ret (builtin_call n fr BError args s).
+Proof. exact error_never_returns_lemma. Qed.
+Print Assumptions error_never_returns.
